@@ -101,7 +101,9 @@ int find_user_by_ip(uint32_t ip)
 		if (users[i].active &&
 			users[i].authenticated &&
 			!users[i].disabled &&
-			users[i].last_pkt + 60 > time(NULL) &&
+			/* same limit as check_user_and_ip(): a session is
+			   refused after MORE than 60 seconds of silence */
+			users[i].last_pkt + 60 >= time(NULL) &&
 			ip == users[i].tun_ip) {
 			ret = i;
 			break;
